@@ -46,11 +46,14 @@ type AssetData struct {
 // Case is one backtest scenario.
 type Case struct {
 	Assets   []AssetData `json:"assets"`
-	Words    [][]int     `json:"words"`    // scripted strategies
-	Leaves   []sreg.Tree `json:"leaves"`   // registry strategies (distinct types)
+	Words    [][]int     `json:"words"`  // scripted strategies
+	Leaves   []sreg.Tree `json:"leaves"` // registry strategies (distinct types)
 	Workers  int         `json:"workers"`
-	Report   string      `json:"report"`   // recording, data, html, html+pages
+	Report   string      `json:"report"` // recording, data, html, html+pages
 	LastDays int         `json:"last_days"`
+	// Rerun > 0: the same Backtest and report instance run a second time, without the first
+	// Rerun-1 strategies of the list (0 dropped = an identical second run)
+	Rerun int `json:"rerun,omitempty"`
 }
 
 func genCase(t *rapid.T) Case {
@@ -94,6 +97,9 @@ func genCase(t *rapid.T) Case {
 	for i, k := 0, rapid.IntRange(0, 3).Draw(t, "leaves"); i < k; i++ {
 		st, _ := sreg.ByName(names[i])
 		c.Leaves = append(c.Leaves, sreg.Tree{Op: "leaf", Leaf: names[i], Cfg: st.GenConfig(t)})
+	}
+	if rapid.IntRange(0, 3).Draw(t, "rerun") == 0 {
+		c.Rerun = 1 + rapid.IntRange(0, len(c.Words)+len(c.Leaves)-1).Draw(t, "dropped")
 	}
 	return c
 }
@@ -257,180 +263,188 @@ func check(c Case) engine.Outcome {
 	}
 	bt := backtest.NewBacktest(repo, rep)
 	bt.Workers, bt.LastDays, bt.Logger = c.Workers, c.LastDays, quiet
-	bt.Strategies = strategies
-	var runErr error
-	if verdict, detail := pipe.Call(func() { runErr = bt.Run() }); verdict != "ok" {
-		o.Failf("Backtest.Run with %d workers and the %s report never returned: %s: %s", c.Workers, c.Report, verdict, detail)
-		return o
-	}
-	if runErr != nil {
-		o.Failf("Backtest.Run: %v", runErr)
-		return o
-	}
 	nearTie := false
-	for _, a := range c.Assets {
-		var outs []float64
-		for _, s := range strategies {
-			outs = append(outs, want[a.Name+" | "+s.Name()].outcome*100)
+	for round := 0; round == 0 || (round == 1 && c.Rerun > 0); round++ {
+		if round == 1 {
+			// the second run of the same Backtest on the same report: its results replace the first run's
+			strategies = strategies[c.Rerun-1:]
+			rec.events = nil
+			o.Class("second_run_on_the_same_report")
 		}
-		sort.Float64s(outs)
-		for i := 1; i < len(outs); i++ {
-			if outs[i]-outs[i-1] < 1 {
-				nearTie = true
-			}
-		}
-	}
-	switch c.Report {
-	case "recording":
-		ev := rec.events
-		if len(ev) == 0 || ev[0] != "begin" || ev[len(ev)-1] != "end" {
-			o.Failf("protocol: first/last notifications are %q / %q, want begin / end (%d events)", first(ev), last(ev), len(ev))
+		bt.Strategies = strategies
+		var runErr error
+		if verdict, detail := pipe.Call(func() { runErr = bt.Run() }); verdict != "ok" {
+			o.Failf("Backtest.Run with %d workers and the %s report never returned: %s: %s", c.Workers, c.Report, verdict, detail)
 			return o
 		}
-		state := map[string]int{} // 0 none, 1 begun, 2 ended
-		writes := map[string]int{}
-		for i, e := range ev[1 : len(ev)-1] {
-			f := strings.SplitN(e, " ", 2)
-			switch f[0] {
-			case "assetbegin":
-				if state[f[1]] != 0 {
-					o.Failf("protocol: asset %s begun twice (event %d)", f[1], i+1)
-					return o
-				}
-				state[f[1]] = 1
-			case "write":
-				name := strings.SplitN(f[1], " | ", 2)[0]
-				if state[name] != 1 {
-					o.Failf("protocol: write for %s outside its asset-begin/asset-end bracket (event %d: %v)", name, i+1, ev)
-					return o
-				}
-				writes[f[1]]++
-			case "assetend":
-				if state[f[1]] != 1 {
-					o.Failf("protocol: asset-end for %s without asset-begin", f[1])
-					return o
-				}
-				state[f[1]] = 2
-			default:
-				o.Failf("protocol: %q in the middle of the run", e)
-				return o
-			}
+		if runErr != nil {
+			o.Failf("Backtest.Run: %v", runErr)
+			return o
 		}
 		for _, a := range c.Assets {
-			if state[a.Name] != 2 {
-				o.Failf("protocol: asset %s was not begun and ended exactly once (state %d)", a.Name, state[a.Name])
-				return o
-			}
+			var outs []float64
 			for _, s := range strategies {
-				if n := writes[a.Name+" | "+s.Name()]; n != 1 {
-					o.Failf("protocol: %d results for (%s, %s), want exactly 1", n, a.Name, s.Name())
-					return o
+				outs = append(outs, want[a.Name+" | "+s.Name()].outcome*100)
+			}
+			sort.Float64s(outs)
+			for i := 1; i < len(outs); i++ {
+				if outs[i]-outs[i-1] < 1 {
+					nearTie = true
 				}
 			}
 		}
-	case "data":
-		if len(data.Results) != len(c.Assets) {
-			o.Failf("DataReport holds results for %d assets, the repository has %d", len(data.Results), len(c.Assets))
-			return o
-		}
-		for _, a := range c.Assets {
-			rs := data.Results[a.Name]
-			if len(rs) != len(strategies) {
-				o.Failf("DataReport: %d results for asset %s, want one per strategy (%d)", len(rs), a.Name, len(strategies))
+		switch c.Report {
+		case "recording":
+			ev := rec.events
+			if len(ev) == 0 || ev[0] != "begin" || ev[len(ev)-1] != "end" {
+				o.Failf("protocol: first/last notifications are %q / %q, want begin / end (%d events)", first(ev), last(ev), len(ev))
 				return o
 			}
-			seen := map[string]bool{}
-			for _, r := range rs {
-				key := a.Name + " | " + r.Strategy.Name()
-				w, ok := want[key]
-				if !ok || seen[key] {
-					o.Failf("DataReport: unexpected or duplicate result %s", key)
+			state := map[string]int{} // 0 none, 1 begun, 2 ended
+			writes := map[string]int{}
+			for i, e := range ev[1 : len(ev)-1] {
+				f := strings.SplitN(e, " ", 2)
+				switch f[0] {
+				case "assetbegin":
+					if state[f[1]] != 0 {
+						o.Failf("protocol: asset %s begun twice (event %d)", f[1], i+1)
+						return o
+					}
+					state[f[1]] = 1
+				case "write":
+					name := strings.SplitN(f[1], " | ", 2)[0]
+					if state[name] != 1 {
+						o.Failf("protocol: write for %s outside its asset-begin/asset-end bracket (event %d: %v)", name, i+1, ev)
+						return o
+					}
+					writes[f[1]]++
+				case "assetend":
+					if state[f[1]] != 1 {
+						o.Failf("protocol: asset-end for %s without asset-begin", f[1])
+						return o
+					}
+					state[f[1]] = 2
+				default:
+					o.Failf("protocol: %q in the middle of the run", e)
 					return o
 				}
-				seen[key] = true
-				if math.Float64bits(r.Outcome) != math.Float64bits(w.outcome) || r.Action != w.action || len(r.Transactions) != len(w.actions) {
-					o.Failf("DataReport %s with %d workers: outcome %v last action %d with %d actions; evaluating the strategy directly on the %d in-window snapshots gives outcome %v last action %d with %d actions", key, c.Workers, r.Outcome, r.Action, len(r.Transactions), len(inWin[a.Name]), w.outcome, w.action, len(w.actions))
+			}
+			for _, a := range c.Assets {
+				if state[a.Name] != 2 {
+					o.Failf("protocol: asset %s was not begun and ended exactly once (state %d)", a.Name, state[a.Name])
 					return o
 				}
-				for i := range w.actions {
-					if r.Transactions[i] != w.actions[i] {
-						o.Failf("DataReport %s: action %d is %d, direct evaluation says %d", key, i, r.Transactions[i], w.actions[i])
+				for _, s := range strategies {
+					if n := writes[a.Name+" | "+s.Name()]; n != 1 {
+						o.Failf("protocol: %d results for (%s, %s), want exactly 1", n, a.Name, s.Name())
 						return o
 					}
 				}
 			}
-		}
-	default:
-		best := map[string]float64{}
-		for _, a := range c.Assets {
-			rows, err := parseRows(filepath.Join(dir, a.Name+".html"))
-			if err != nil {
-				o.Failf("HTML report of %s: %v", a.Name, err)
+		case "data":
+			if len(data.Results) != len(c.Assets) {
+				o.Failf("DataReport holds results for %d assets, the repository has %d", len(data.Results), len(c.Assets))
 				return o
 			}
-			if len(rows) != len(strategies) {
-				o.Failf("HTML report of %s lists %d strategies, want %d", a.Name, len(rows), len(strategies))
+			for _, a := range c.Assets {
+				rs := data.Results[a.Name]
+				if len(rs) != len(strategies) {
+					o.Failf("DataReport: %d results for asset %s, want one per strategy (%d)", len(rs), a.Name, len(strategies))
+					return o
+				}
+				seen := map[string]bool{}
+				for _, r := range rs {
+					key := a.Name + " | " + r.Strategy.Name()
+					w, ok := want[key]
+					if !ok || seen[key] {
+						o.Failf("DataReport: unexpected or duplicate result %s", key)
+						return o
+					}
+					seen[key] = true
+					if math.Float64bits(r.Outcome) != math.Float64bits(w.outcome) || r.Action != w.action || len(r.Transactions) != len(w.actions) {
+						o.Failf("DataReport %s with %d workers: outcome %v last action %d with %d actions; evaluating the strategy directly on the %d in-window snapshots gives outcome %v last action %d with %d actions", key, c.Workers, r.Outcome, r.Action, len(r.Transactions), len(inWin[a.Name]), w.outcome, w.action, len(w.actions))
+						return o
+					}
+					for i := range w.actions {
+						if r.Transactions[i] != w.actions[i] {
+							o.Failf("DataReport %s: action %d is %d, direct evaluation says %d", key, i, r.Transactions[i], w.actions[i])
+							return o
+						}
+					}
+				}
+			}
+		default:
+			best := map[string]float64{}
+			for _, a := range c.Assets {
+				rows, err := parseRows(filepath.Join(dir, a.Name+".html"))
+				if err != nil {
+					o.Failf("HTML report of %s: %v", a.Name, err)
+					return o
+				}
+				if len(rows) != len(strategies) {
+					o.Failf("HTML report of %s lists %d strategies, want %d", a.Name, len(rows), len(strategies))
+					return o
+				}
+				seen := map[string]bool{}
+				maxWant := math.Inf(-1)
+				for i, r := range rows {
+					w, ok := want[a.Name+" | "+r.name]
+					if !ok || seen[r.name] {
+						o.Failf("HTML report of %s: unexpected or duplicate strategy row %q", a.Name, r.name)
+						return o
+					}
+					seen[r.name] = true
+					if pw, _ := strconv.ParseFloat(fmt.Sprintf("%.2f", w.outcome*100), 64); pw != r.outcome {
+						o.Failf("HTML report of %s: %s shows %.2f%%, direct evaluation gives %.2f%%", a.Name, r.name, r.outcome, w.outcome*100)
+						return o
+					}
+					if i > 0 && r.outcome > rows[i-1].outcome {
+						o.Failf("HTML report of %s: ranking not in non-increasing outcome order: row %d (%s) %.2f%% comes after %.2f%% (%d workers)", a.Name, i, r.name, r.outcome, rows[i-1].outcome, c.Workers)
+						return o
+					}
+					if w.outcome*100 > maxWant {
+						maxWant = w.outcome * 100
+					}
+				}
+				if pw, _ := strconv.ParseFloat(fmt.Sprintf("%.2f", maxWant), 64); rows[0].outcome != pw {
+					o.Failf("HTML report of %s: the entry presented as best shows %.2f%%, the maximal outcome is %.2f%%", a.Name, rows[0].outcome, maxWant)
+					return o
+				}
+				best[a.Name] = rows[0].outcome
+				if c.Report == "html+pages" {
+					for _, s := range strategies {
+						if _, err := os.Stat(filepath.Join(dir, fmt.Sprintf("%s - %s.html", a.Name, s.Name()))); err != nil {
+							o.Failf("strategy page missing: %v", err)
+							return o
+						}
+					}
+				}
+			}
+			rows, err := parseRows(filepath.Join(dir, "index.html"))
+			if err != nil {
+				o.Failf("index.html: %v", err)
+				return o
+			}
+			if len(rows) != len(c.Assets) {
+				o.Failf("index.html lists %d assets, want %d", len(rows), len(c.Assets))
 				return o
 			}
 			seen := map[string]bool{}
-			maxWant := math.Inf(-1)
 			for i, r := range rows {
-				w, ok := want[a.Name+" | "+r.name]
+				b, ok := best[r.name]
 				if !ok || seen[r.name] {
-					o.Failf("HTML report of %s: unexpected or duplicate strategy row %q", a.Name, r.name)
+					o.Failf("index.html: unexpected or duplicate asset row %q", r.name)
 					return o
 				}
 				seen[r.name] = true
-				if pw, _ := strconv.ParseFloat(fmt.Sprintf("%.2f", w.outcome*100), 64); pw != r.outcome {
-					o.Failf("HTML report of %s: %s shows %.2f%%, direct evaluation gives %.2f%%", a.Name, r.name, r.outcome, w.outcome*100)
+				if r.outcome != b {
+					o.Failf("index.html: asset %s shows %.2f%%, its best result is %.2f%%", r.name, r.outcome, b)
 					return o
 				}
 				if i > 0 && r.outcome > rows[i-1].outcome {
-					o.Failf("HTML report of %s: ranking not in non-increasing outcome order: row %d (%s) %.2f%% comes after %.2f%% (%d workers)", a.Name, i, r.name, r.outcome, rows[i-1].outcome, c.Workers)
+					o.Failf("index.html: ranking not in non-increasing order: row %d (%s) %.2f%% after %.2f%%", i, r.name, r.outcome, rows[i-1].outcome)
 					return o
 				}
-				if w.outcome*100 > maxWant {
-					maxWant = w.outcome * 100
-				}
-			}
-			if pw, _ := strconv.ParseFloat(fmt.Sprintf("%.2f", maxWant), 64); rows[0].outcome != pw {
-				o.Failf("HTML report of %s: the entry presented as best shows %.2f%%, the maximal outcome is %.2f%%", a.Name, rows[0].outcome, maxWant)
-				return o
-			}
-			best[a.Name] = rows[0].outcome
-			if c.Report == "html+pages" {
-				for _, s := range strategies {
-					if _, err := os.Stat(filepath.Join(dir, fmt.Sprintf("%s - %s.html", a.Name, s.Name()))); err != nil {
-						o.Failf("strategy page missing: %v", err)
-						return o
-					}
-				}
-			}
-		}
-		rows, err := parseRows(filepath.Join(dir, "index.html"))
-		if err != nil {
-			o.Failf("index.html: %v", err)
-			return o
-		}
-		if len(rows) != len(c.Assets) {
-			o.Failf("index.html lists %d assets, want %d", len(rows), len(c.Assets))
-			return o
-		}
-		seen := map[string]bool{}
-		for i, r := range rows {
-			b, ok := best[r.name]
-			if !ok || seen[r.name] {
-				o.Failf("index.html: unexpected or duplicate asset row %q", r.name)
-				return o
-			}
-			seen[r.name] = true
-			if r.outcome != b {
-				o.Failf("index.html: asset %s shows %.2f%%, its best result is %.2f%%", r.name, r.outcome, b)
-				return o
-			}
-			if i > 0 && r.outcome > rows[i-1].outcome {
-				o.Failf("index.html: ranking not in non-increasing order: row %d (%s) %.2f%% after %.2f%%", i, r.name, r.outcome, rows[i-1].outcome)
-				return o
 			}
 		}
 	}
